@@ -19,6 +19,7 @@
 #include "Util/SelectionRule.h"
 #include "Util/CompInfo.h"
 #include "Util/SimpleRandom.h"
+#include "Util/VerifHook.h"
 #include "MatOp/internal/ArnoldiOp.h"
 #include "LinAlg/UpperHessenbergQR.h"
 #include "LinAlg/DoubleShiftQR.h"
@@ -38,6 +39,7 @@ template <typename OpType, typename BOpType>
 class GenEigsBase
 {
 private:
+    SPECTRA_VERIF_FRIEND
     using Scalar = typename OpType::Scalar;
     using Index = Eigen::Index;
     using Matrix = Eigen::Matrix<Scalar, Eigen::Dynamic, Eigen::Dynamic>;
@@ -85,6 +87,7 @@ private:
     // Implicitly restarted Arnoldi factorization
     void restart(Index k, SortRule selection)
     {
+        SPECTRA_VERIF_EVENT("RestartBegin", this, (long long) k);
         using std::norm;
 
         if (k >= m_ncv)
@@ -96,6 +99,7 @@ private:
 
         for (Index i = k; i < m_ncv; i++)
         {
+            SPECTRA_VERIF_EVENT("ShiftBegin", this, (long long) i, (long long) is_complex(m_ritz_val[i]));
             if (is_complex(m_ritz_val[i]) && is_conj(m_ritz_val[i], m_ritz_val[i + 1]))
             {
                 // H - mu * I = Q1 * R1
@@ -116,6 +120,7 @@ private:
                 // decomp_ds.apply_YQ(Q);
                 // m_fac_H = Q.transpose() * m_fac_H * Q;
                 m_fac.compress_H(decomp_ds);
+                SPECTRA_VERIF_EVENT("Shift", this, (long long) i, 2, 0);
 
                 i++;
             }
@@ -128,6 +133,7 @@ private:
                 decomp_hb.apply_YQ(Q);
                 // H -> Q'HQ = RQ + mu * I
                 m_fac.compress_H(decomp_hb);
+                SPECTRA_VERIF_EVENT("Shift", this, (long long) i, 1, (long long) is_complex(m_ritz_val[i]));
             }
         }
 
@@ -135,6 +141,7 @@ private:
         m_fac.factorize_from(k, m_ncv, m_nmatop);
 
         retrieve_ritzpair(selection);
+        SPECTRA_VERIF_EVENT("RestartEnd", this, (long long) k);
     }
 
     // Calculates the number of converged Ritz values
@@ -154,6 +161,7 @@ private:
         // Converged "wanted" Ritz values
         m_ritz_conv = (resid < thresh);
 
+        SPECTRA_VERIF_EVENT("NumConv", this, (long long) m_ritz_conv.count());
         return m_ritz_conv.count();
     }
 
@@ -189,6 +197,7 @@ private:
             nev_new++;
         }
 
+        SPECTRA_VERIF_EVENT("NevAdj", this, (long long) nconv, (long long) nev_new);
         return nev_new;
     }
 
@@ -253,6 +262,7 @@ private:
         {
             m_ritz_vec.col(i).noalias() = evecs.col(ind[i]);
         }
+        SPECTRA_VERIF_EVENT("Retrieve", this, (long long) selection);
     }
 
 protected:
@@ -260,6 +270,7 @@ protected:
     // This is used to return the final results
     virtual void sort_ritzpair(SortRule sort_rule)
     {
+        SPECTRA_VERIF_EVENT("SortBegin", this, (long long) sort_rule);
         std::vector<Index> ind;
         switch (sort_rule)
         {
@@ -317,6 +328,7 @@ protected:
         m_ritz_val.swap(new_ritz_val);
         m_ritz_vec.swap(new_ritz_vec);
         m_ritz_conv.swap(new_ritz_conv);
+        SPECTRA_VERIF_EVENT("SortEnd", this, (long long) sort_rule);
     }
 
 public:
@@ -357,6 +369,7 @@ public:
     ///
     void init(const Scalar* init_resid)
     {
+        SPECTRA_VERIF_EVENT("InitBegin", this, 0);
         // Reset all matrices/vectors to zero
         m_ritz_val.resize(m_ncv);
         m_ritz_vec.resize(m_ncv, m_nev);
@@ -374,6 +387,7 @@ public:
         // Initialize the Arnoldi factorization
         MapConstVec v0(init_resid, m_n);
         m_fac.init(v0, m_nmatop);
+        SPECTRA_VERIF_EVENT("InitEnd", this, (long long) m_nmatop);
     }
 
     ///
@@ -417,6 +431,7 @@ public:
     Index compute(SortRule selection = SortRule::LargestMagn, Index maxit = 1000,
                   Scalar tol = 1e-10, SortRule sorting = SortRule::LargestMagn)
     {
+        SPECTRA_VERIF_EVENT("ComputeBegin", this, (long long) selection, (long long) maxit, (long long) sorting);
         // The m-step Arnoldi factorization
         m_fac.factorize_from(1, m_ncv, m_nmatop);
         retrieve_ritzpair(selection);
@@ -437,6 +452,7 @@ public:
         m_niter += i + 1;
         m_info = (nconv >= m_nev) ? CompInfo::Successful : CompInfo::NotConverging;
 
+        SPECTRA_VERIF_EVENT("ComputeEnd", this, (long long) (std::min)(m_nev, nconv), (long long) m_info, (long long) m_niter, (long long) m_nmatop);
         return (std::min)(m_nev, nconv);
     }
 
